@@ -865,6 +865,25 @@ class Interp:
         return self._comp(n, fr, 'list')
 
     def ex_GeneratorExp(self, n, fr):
+        # a generator expression over a lazy stream is itself a lazy stage: (f(x) for x in s if c(x)) = map(f, filter(c, s))
+        if len(n.generators) == 1 and isinstance(n.generators[0].target, ast.Name):
+            g = n.generators[0]
+            src = self.eval(g.iter, fr)
+            if isinstance(src, (LazyIter, GenVal)) or type(src).__name__ == 'StreamSrc':
+                mod = self._module_of(fr)
+                arg = ast.arguments(posonlyargs=[], args=[ast.arg(arg=g.target.id)], kwonlyargs=[], kw_defaults=[], defaults=[])
+                out = src
+                for c in g.ifs:
+                    lam = ast.Lambda(args=arg, body=c)
+                    ast.copy_location(lam, c)
+                    out = LazyIter('filter', FuncVal(lam, mod, closure=fr), out)
+                if not (isinstance(n.elt, ast.Name) and n.elt.id == g.target.id):
+                    lam = ast.Lambda(args=arg, body=n.elt)
+                    ast.copy_location(lam, n.elt)
+                    out = LazyIter('map', FuncVal(lam, mod, closure=fr), out)
+                elif not g.ifs:
+                    out = LazyIter('map', None, out)
+                return out
         r = self._comp(n, fr, 'list')
         # the produced sequence stands for a generator object: whoever iterates it a second time finds it exhausted
         if isinstance(r, (PList, SymList)):
@@ -910,15 +929,17 @@ class Interp:
                 shape = ('swap',)
             from .libops import OpaqueVal
             return OpaqueVal('comp', (kind, src, shape))
-        if isinstance(src, (SymList, LazyIter, SymMap)) or (isinstance(src, PList) and not src.is_concrete()):
+        guarded_src = isinstance(src, PList) and not src.is_concrete() and kind == 'list'
+        if isinstance(src, (SymList, LazyIter, SymMap)) or (isinstance(src, PList) and not src.is_concrete() and not guarded_src):
             return self.lib.symbolic_comp(self, n, g, src, fr, kind)
-        items = self.iterate(src, n)
+        # a list whose items are present under guards (flag names): the comprehension keeps each result under its item's guard
+        pairs = list(src.items) if guarded_src else [(True, v) for v in self.iterate(src, n)]
         out = PList() if kind == 'list' else PDict()
         acc = []
-        for v in items:
+        for g0, v in pairs:
             f2 = Frame(parent=fr)
             self.assign(g.target, v, f2)
-            guard = True
+            guard = g0
             for c in g.ifs:
                 t = self.truth(self.eval(c, f2), c)
                 if isinstance(t, bool):
@@ -960,6 +981,11 @@ class Interp:
         if kind == 'dict':
             return (self.eval(n.key, f2), self.eval(n.value, f2))
         return self.eval(n.elt, f2)
+
+    def ex_NamedExpr(self, n, fr):
+        v = self.eval(n.value, fr)
+        self.assign(n.target, v, fr)
+        return v
 
     def ex_Yield(self, n, fr):
         v = self.eval(n.value, fr) if n.value is not None else None
